@@ -352,9 +352,20 @@ def _interp(ops):
                 if kind == "new":
                     f = cls(w, n)
                 else:
+                    # any spelling of the value as a big-endian byte sequence: minimal length, the packed length,
+                    # extra leading zero bytes; as bytes / bytearray / list / tuple / one-shot iterator / generator
                     nb = (w + 7) // 8
-                    data = [(n >> (8 * (nb - 1 - k))) & 0xFF for k in range(nb)]
-                    f = cls(w, data if step % 2 else bytes(data))
+                    need = max((n.bit_length() + 7) // 8, 0)
+                    ln = [nb, need, nb + 1, nb + 3, max(need, nb - 1)][(step + n) % 5]
+                    data = [(n >> (8 * (ln - 1 - k))) & 0xFF for k in range(ln)]
+                    form = (step * 7 + w) % 6
+                    given = [bytes(data), bytearray(data), list(data), tuple(data), iter(list(data)), (x for x in list(data))][form]
+                    f = cls(w, given)
+                    touched.append(0)
+                    out_len = len(f.pack)
+                    if out_len != nb:
+                        out.append(("C05:pack", "%s: built from %d data bytes (form %d): pack has %d bytes, expected %d"
+                                    % (where, ln, form, out_len, nb)))
                 m = M.from_int(w, n)
                 pool.append((f, m, False))
                 quick_agree(f, m, out, where)
